@@ -461,6 +461,10 @@ def Script.ofSX (fuel : Nat) : SX → Option Script
            handlers := ← hs.mapM (Handler.ofSX fuel) }
   | _ => none
 
+def Handler.parse (s : List Char) : Option Handler := do
+  let x ← SX.parse s
+  Handler.ofSX (s.length + 4) x
+
 def Script.parse (s : List Char) : Option Script := do
   let x ← SX.parse s
   Script.ofSX (s.length + 4) x
